@@ -588,7 +588,7 @@ End InvGet.
 (*  parse_declarations                                                        *)
 (* ======================================================================== *)
 Section Decls.
-Variable fixed fixed_aspan : bool.
+Variable fixed fixed_aspan fixed_pspan : bool.
 Variable kind : ykind.
 Variable src : str.
 Variable fuel : nat.
@@ -926,7 +926,7 @@ Ltac optlook :=
 
 Lemma rule_loop_sg : forall f st rn i syms prec action pstart pend,
   SI st -> V i -> swf syms -> AW action -> V pstart -> oforall V pend ->
-  sg V (rule_loop fixed fixed_aspan src len fuel f st rn i syms prec action pstart pend).
+  sg V (rule_loop fixed fixed_aspan fixed_pspan src len fuel f st rn i syms prec action pstart pend).
 Proof.
   induction f as [|f IH]; intros st rn i syms prec action pstart pend HI Hv Hs Ha Hps Hpe; [exact I|].
   cbn [rule_loop]. destruct (negb (i <? len)); [apply sg_fail; assumption|].
@@ -934,7 +934,7 @@ Proof.
   assert (Hnext : forall st' i' syms' prec' action' pend',
             SI st' -> V i' -> swf syms' -> AW action' -> oforall V pend' ->
             sg V (sbind (WS st' i' true)
-                        (fun st i => rule_loop fixed fixed_aspan src len fuel f st rn i syms' prec' action' pstart pend'))).
+                        (fun st i => rule_loop fixed fixed_aspan fixed_pspan src len fuel f st rn i syms' prec' action' pstart pend'))).
   { intros st' i' syms' prec' action' pend' HI' Hv' Hs' Ha' Hpe'.
     bws st2 i2 HI2 Hv2. apply IH; assumption. }
   (* | *)
@@ -981,7 +981,8 @@ Proof.
     blook st10 t1 HI10 Ht1. clear Ht1.
     eapply sg_bind with (P := fun _ : option nat => True); [optlook|].
     intros st11 t2 HI11 _. destruct (negb (is_some t2)); [apply sg_fail; assumption|].
-    apply Hnext; [exact HI11 | exact Hv8 | exact Hs | exact Hasp | exact Hv]. }
+    apply Hnext; [exact HI11 | exact Hv8 | exact Hs | exact Hasp |].
+    unfold brace_pend. destruct fixed_pspan; [destruct pend; simpl in *; assumption | exact Hv]. }
   clear Hla6.
   (* %empty *)
   blook st7 la7 HI7 Hla7. destruct la7 as [j7|].
@@ -1016,7 +1017,7 @@ Proof.
 Qed.
 
 Lemma parse_rule_sg : forall st i, SI st -> V i ->
-  sg V (parse_rule fixed fixed_aspan kind src len fuel st i).
+  sg V (parse_rule fixed fixed_aspan fixed_pspan kind src len fuel st i).
 Proof.
   intros st i HI Hv. unfold parse_rule.
   blift parse_name_E st1 t HI1 Ht. destruct t as [j rn]. simpl in Ht.
@@ -1051,7 +1052,7 @@ Proof.
 Qed.
 
 Lemma rules_loop_sg : forall f st i, SI st -> V i ->
-  sg V (rules_loop fixed fixed_aspan kind src len fuel f st i).
+  sg V (rules_loop fixed fixed_aspan fixed_pspan kind src len fuel f st i).
 Proof.
   induction f as [|f IH]; intros st i HI Hv; [exact I|].
   cbn [rules_loop]. destruct (negb (i <? len)); [apply sg_ret; assumption|].
@@ -1061,7 +1062,7 @@ Proof.
 Qed.
 
 Lemma parse_rules_sg : forall st i, SI st -> V i ->
-  sg V (parse_rules fixed fixed_aspan kind src len fuel st i).
+  sg V (parse_rules fixed fixed_aspan fixed_pspan kind src len fuel st i).
 Proof.
   intros st i HI Hv. unfold parse_rules.
   blook st1 la HI1 Hla. destruct la as [j|]; [|exact I].
@@ -1086,7 +1087,7 @@ Proof.
 Qed.
 
 Lemma parse_spans : forall st es,
-  parse fixed fixed_aspan kind src len fuel = Done (st, es) -> SI st /\ Forall (ewf src) es.
+  parse fixed fixed_aspan fixed_pspan kind src len fuel = Done (st, es) -> SI st /\ Forall (ewf src) es.
 Proof.
   intros st es H. unfold parse in H.
   pose proof (parse_declarations_sg st0 0 SI_st0 (vpos_0 src)) as H1.
@@ -1096,7 +1097,7 @@ Proof.
       apply Forall_snoc; [exact (proj1 HI1) | exact He1]. }
   destruct H1 as [HI1 Hv1].
   pose proof (parse_rules_sg st1 i1 HI1 Hv1) as H2.
-  destruct (parse_rules fixed fixed_aspan kind src len fuel st1 i1) as [[st2 [i2|e2]]| |];
+  destruct (parse_rules fixed fixed_aspan fixed_pspan kind src len fuel st1 i1) as [[st2 [i2|e2]]| |];
     cbn [obind] in H; try discriminate H; simpl in H2.
   2:{ injection H as <- <-. destruct H2 as [HI2 He2]. split; [exact HI2|].
       apply Forall_snoc; [exact (proj1 HI2) | exact He2]. }
@@ -1307,12 +1308,12 @@ End Validate.
 (* ======================================================================== *)
 Lemma yacc_error_spans_wellformed : yacc_error_spans_wellformed_stmt.
 Proof.
-  intros fixed fixed_aspan kind src r Hrun. unfold run_case, yacc_new_gen in Hrun.
+  intros fixed fixed_aspan fixed_pspan kind src r Hrun. unfold run_case, yacc_new_gen in Hrun.
   destruct (header_present src); [injection Hrun as <-; exact I|].
   assert (Hfuel : byte_len src < fuel_for src) by (unfold fuel_for; lia).
-  destruct (parse fixed fixed_aspan kind src (byte_len src) (fuel_for src)) as [[st es]| |] eqn:Hp;
+  destruct (parse fixed fixed_aspan fixed_pspan kind src (byte_len src) (fuel_for src)) as [[st es]| |] eqn:Hp;
     cbn [obind] in Hrun; try discriminate Hrun.
-  destruct (parse_spans fixed fixed_aspan kind src (fuel_for src) Hfuel st es Hp) as [HI Hes].
+  destruct (parse_spans fixed fixed_aspan fixed_pspan kind src (fuel_for src) Hfuel st es Hp) as [HI Hes].
   pose proof (SI_awf _ _ _ HI) as Ha.
   destruct (complete_and_validate (ast st)) as [v| |] eqn:Hv; cbn [obind] in Hrun; try discriminate Hrun.
   injection Hrun as <-.
@@ -1329,8 +1330,8 @@ Qed.
 
 Lemma yacc_action_span_boundary_fixed : yacc_action_span_boundary_fixed_stmt.
 Proof.
-  intros fixed kind src a errs w Hrun.
-  pose proof (yacc_error_spans_wellformed fixed true kind src _ Hrun) as H. simpl in H.
+  intros fixed fixed_pspan kind src a errs w Hrun.
+  pose proof (yacc_error_spans_wellformed fixed true fixed_pspan kind src _ Hrun) as H. simpl in H.
   destruct H as (_ & _ & _ & _ & H). apply H. reflexivity.
 Qed.
 
